@@ -61,6 +61,7 @@ BOUNDS = {
         "holdout": "3 parents (3-4 rows), fractions 0, 0.5, 1, both hold-out functions, full choice tree",
         "names": "1-row screens over 8^3 name triples x 3 control names; 2-row screens over all 64 ordered name pairs (names incl. empty, CJK, trailing blank, decomposed and compatibility unicode)",
         "merged": "3-4 plate screens after one in-place Plate.merge (every ordered pair), then 3 save/load cycles",
+        "many_ids": "sparse probes with exactly 255, 256, 257, 65535, 65536, 65537 distinct conditions and samples",
         "empty": "0 rows, arity 1..3, 2 control names, with and without a supplied mapping",
         "cycles": "screen: 2 everywhere, 3 for obsmask / names / empty; experiment space: 1 resp. 2",
         "observations": OBS,
@@ -279,6 +280,8 @@ def plan(tier, seed):
             items.append({"k": "names1", "control": c, "treatment": t})
         items.append({"k": "names2", "control": c})
     items.append({"k": "empty"})
+    for n in (255, 256, 257, 65535, 65536, 65537):
+        items.append({"k": "manyids", "n": n})
     for c in c01.CONTROLS[:2]:
         for rows_per in ([1, 1, 1], [2, 1, 2], [1, 2, 1, 1]):
             items.append({"k": "merged", "control": c, "rows_per": rows_per})
@@ -412,6 +415,17 @@ def run_case(case, col, tmp, verbose=False):
                 c2 = dict(case, memory=mem)
                 round_trip(build(case["spec"], control, tm, sm, memory=mem), cycles, col, c2, case["family"] + "|layout-" + mem, tmp, verbose)
         return
+    if kind == "manyids":
+        # sparse probe: exactly n distinct conditions and n distinct samples (id tables whose largest id sits on a byte / word
+        # boundary: 255, 256, 65535, 65536 ...)
+        n = case["n"]
+        s = Screen(
+            treatment_names=np.array([[f"t{i:06d}"] for i in range(n)], dtype=str), treatment_doses=np.array([[1.0 + (i % 3)] for i in range(n)]),
+            sample_names=np.array([f"s{(i * 7) % n:06d}" for i in range(n)], dtype=str), plate_names=np.array([f"p{i % 3}" for i in range(n)], dtype=str),
+            observations=np.array([0.001 * (i % 997) for i in range(n)]), observation_mask=np.array([i % 3 != 1 for i in range(n)]), control_treatment_name=control,
+        )
+        round_trip(s, cycles, col, case, "manyids", tmp, verbose)
+        return
     if kind == "holdout":
         parent = build(case["spec"], control)
         ch = Chooser(case["choices"])
@@ -513,6 +527,9 @@ def _run_item(item, col, tier, tmp):
                             "sn": [y, x] if variant == 0 else [x, y], "pn": [x, x] if variant == 0 else [y, x],
                             "obs": [0.25, 0.5], "mask": [True, True] if variant == 0 else [False, False]}
                     run_case({"kind": "screen", "family": "names", "control": item["control"], "spec": spec, "cycles": 3}, col, tmp)
+        return
+    if k == "manyids":
+        run_case({"kind": "manyids", "n": item["n"], "control": "", "cycles": 2}, col, tmp)
         return
     if k == "merged":
         # screens whose plates were merged in place (Plate.merge rewrites plate names and ids of the live screen), then saved
